@@ -58,7 +58,7 @@ func reinitTrace(t *testing.T, n, thr int, adapt014 bool) (*ceremonyTrace, error
 		if adapt014 {
 			// a log of version 0.1.4: no self-confirmations, no announced polynomial - the polynomial reaches the round
 			// only when the operator finishes the re-initialisation
-			src = to014(o.Log)
+			src = to014(o.Log, func(string) bool { return true })
 		}
 		re, err := types.GenerateReDKGMessage(src, newKeys)
 		if err == nil && adapt014 {
